@@ -121,10 +121,10 @@ PROPS = {
         "text": "writer output tokenises into the expected chunk sequence and the strict decoder returns the entries written (proved); every archive/part file produced by the C01/C04/C10/C11 families is decoded by an independent primitive-crate reader",
     },
     "C02": {
-        "lean": ["PnaVerif.Props.Consts", "PnaVerif.Props.C02"],
+        "lean": ["PnaVerif.Props.Consts", "PnaVerif.Props.C02", "PnaVerif.Props.C02Compose"],
         "families": ["cli-tree"],
         "cli": True,
-        "trusted": COMMON_TRUST + ["the tree-level model (Model/Cli/Create.lean) is a hand-written specification of create+extract; its tie to the code is the cli-tree correspondence on the real binary", "kernel file-system behaviour (permission bits, utimensat, symlink creation) is observed, not modelled"],
+        "trusted": COMMON_TRUST + ["the tree-level specification (Model/Cli/Create.lean expectedTree) is proved equal to the composition of the create and extract transcriptions over the abstract file system (Props/C02Compose.lean); the tie of those transcriptions to the code is the cli-tree and extract-fs correspondence on the real binary", "kernel file-system behaviour (permission bits, utimensat, symlink creation) is observed, not modelled"],
         "text": "expected tree after create+extract characterised for every tree and keep-option subset; real pna create/extract over the option product compared with it",
     },
     "C12": {
